@@ -1,7 +1,10 @@
 package main
 
 import (
+	"fmt"
 	"os"
+	"runtime/pprof"
+	"time"
 
 	"verifmc/engine/bfs"
 	"verifmc/engine/ev"
@@ -14,6 +17,35 @@ func main() {
 		out := os.Stdout
 		os.Stdout = os.Stderr
 		bfs.WorkerMain(os.Args[2], os.Stdin, out)
+		return
+	}
+	if len(os.Args) > 1 && os.Args[1] == "prof" {
+		// timing / replay helper: vdev-c16 prof <scenario> op op ...
+		t0 := time.Now()
+		sc := bfs.Make(os.Args[2])
+		fmt.Println("build", time.Since(t0))
+		names := sc.Ops()
+		idx := map[string]int{}
+		for i, n := range names {
+			idx[n] = i
+		}
+		f, _ := os.Create("/tmp/c16.prof")
+		pprof.StartCPUProfile(f)
+		for rep := 0; rep < 3; rep++ {
+			sc.Reset()
+			for _, a := range os.Args[3:] {
+				t := time.Now()
+				st := sc.Apply(idx[a])
+				fmt.Println(a, st.Accepted, st.Obs, len(st.Viol), time.Since(t))
+				for _, v := range st.Viol {
+					fmt.Println("   ", v.Key, v.What)
+				}
+				t = time.Now()
+				sc.Hash()
+				fmt.Println("  hash", time.Since(t))
+			}
+		}
+		pprof.StopCPUProfile()
 		return
 	}
 	c, _ := reg.Get("C16")
